@@ -19,6 +19,10 @@ pub(crate) static mut B_FAIL_FOREVER: bool = false; // every call from B_FAIL_AT
 pub(crate) static mut B_LEN: u64 = 0;
 pub(crate) static mut B_WRITES: u32 = 0; // write / set_len / sync_data calls
 pub(crate) static mut B_OOB: u32 = 0; // reads or writes beyond the current length
+// "file image" mode (open-path harness): reads are served from B_IMG and a read beyond the current
+// length returns an error, as the StorageBackend contract demands
+pub(crate) static mut B_SERVE_IMG: bool = false;
+pub(crate) static mut B_IMG: [u8; 320] = [0; 320];
 
 #[derive(Debug)]
 pub(crate) struct HBackend;
@@ -47,8 +51,20 @@ impl StorageBackend for HBackend {
     }
     fn read(&self, offset: u64, out: &mut [u8]) -> Result<(), crate::io::Error> {
         unsafe {
-            if offset.checked_add(out.len() as u64).map_or(true, |e| e > B_LEN) {
+            let oob = offset.checked_add(out.len() as u64).map_or(true, |e| e > B_LEN);
+            if oob {
                 B_OOB += 1;
+            }
+            if B_SERVE_IMG {
+                if oob {
+                    return Err(std::io::Error::from(std::io::ErrorKind::UnexpectedEof));
+                }
+                // the open path reads the magic number (9 bytes) and the header (320 bytes) at offset 0
+                if offset == 0 && out.len() == 9 {
+                    out.copy_from_slice(&B_IMG[..9]);
+                } else if offset == 0 && out.len() == 320 {
+                    out.copy_from_slice(&B_IMG[..]);
+                }
             }
         }
         b_step()
@@ -95,6 +111,17 @@ impl StorageBackend for HBackend {
 /// PagedCachedFile by struct literal with EMPTY cache stripes (PagedCachedFile::new allocates
 /// 262 stripes and does not finish symbolic execution).  Any cache method that is not stubbed
 /// indexes an empty Vec and fails the harness, so a new storage call cannot go unnoticed.
+/// stub of PagedCachedFile::new: the struct literal over the harness backend (the caller's backend
+/// is leaked, the 262 stripe allocations are skipped)
+pub(crate) fn stub_paged_cached_file_new(
+    file: Box<dyn StorageBackend>,
+    page_size: u64,
+    _max_cache_size: usize,
+) -> core::result::Result<PagedCachedFile, crate::DatabaseError> {
+    core::mem::forget(file);
+    Ok(literal_cached_file(page_size))
+}
+
 pub(crate) fn literal_cached_file(page_size: u64) -> PagedCachedFile {
     PagedCachedFile {
         file: CheckedBackend {
